@@ -43,7 +43,11 @@ class PatternEncoderBase(LazyEncoder):
                 settings.existence.patterns if settings.existence is not None else [NodeExistence()])}
 
         # Encode
-        super().set_settings(settings)
+        try:
+            super().set_settings(settings)
+        except RuntimeError as e:
+            # E.g. the pattern leaves a design variable with less than 2 options: the pattern encoder does not apply
+            raise InvalidPatternEncoder(f'Invalid pattern encoder {self!r}: {e}')
 
     def _try_settings(self, settings: MatrixGenSettings):
         self._settings = settings
